@@ -341,6 +341,10 @@ class PeerConnection:
         self.msg_dump: MessageDumpLogAdapter = MessageDumpLogAdapter(
             logging.getLogger("diameter.peer.msg"), extra={"peer": self})
         self.write_lock: threading.Lock = threading.Lock()
+        # the watchdog timers of the connection thread change the state
+        # depending on its current value, while a read thread or `Node.stop`
+        # takes the connection out of service
+        self.state_lock: threading.Lock = threading.Lock()
 
         self.auth_application_ids: list[int] = []
         """List of supported authentication application IDs for this peer. The 
@@ -534,8 +538,9 @@ class PeerConnection:
         received within the configured timeout period, the peer connection is
         closed.
         """
-        if self.state == PEER_READY_WAITING_DWA:
-            self.state = PEER_READY
+        with self.state_lock:
+            if self.state == PEER_READY_WAITING_DWA:
+                self.state = PEER_READY
         self._last_dwr = 0
 
     def reset_last_dwr(self):
@@ -544,8 +549,9 @@ class PeerConnection:
         Starts the DWA wait timer and changes connection state to
         PEER_READY_WAITING_DWA.
         """
-        if self.state in PEER_READY_STATES:
-            self.state = PEER_READY_WAITING_DWA
+        with self.state_lock:
+            if self.state in PEER_READY_STATES:
+                self.state = PEER_READY_WAITING_DWA
         self._last_dwr = int(time.time())
 
     def work_read_queue(self, _thread: StoppableThread):
